@@ -96,6 +96,10 @@ pub struct Case {
     pub phases: Vec<Phase>,
     pub final_drop_order: Vec<u16>,
     pub final_on_thread: bool,
+    /// the remaining foreign wakers are owned by a thread that panics: they are dropped while that
+    /// thread unwinds
+    #[serde(default)]
+    pub final_unwinding: bool,
 }
 
 #[derive(Default)]
@@ -381,7 +385,19 @@ fn body(case: &Case) -> Result<(usize, usize, usize, usize), Fail> {
         }
         Ok(())
     };
-    if case.final_on_thread {
+    if case.final_unwinding {
+        // move the retained wakers into a thread that panics; its locals die during unwinding
+        let owned: Vec<Waker> = std::mem::take(&mut shared.lock().unwrap().store);
+        let n = owned.len();
+        let r = std::thread::spawn(move || {
+            let _held = owned;
+            std::panic::resume_unwind(Box::new("planned panic of a thread that holds wakers"));
+        })
+        .join();
+        ensure!(r.is_err(), "harness", "the planned panic did not happen");
+        let mut sh = shared.lock().unwrap();
+        sh.dropped_unwoken += n;
+    } else if case.final_on_thread {
         let sh2 = shared.clone();
         let r = std::thread::scope(|s| s.spawn(move || finish(&mut sh2.lock().unwrap())).join().unwrap());
         r?;
@@ -402,7 +418,7 @@ fn body(case: &Case) -> Result<(usize, usize, usize, usize), Fail> {
 }
 
 pub fn check(case: &Case) -> CaseResult {
-    let threaded = case.final_on_thread || case.phases.iter().any(|p| p.after_on_thread);
+    let threaded = case.final_on_thread || case.final_unwinding || case.phases.iter().any(|p| p.after_on_thread);
     let (r, rep) = tracked_confirmed(|| body(case));
     let (created, foreign_clones, dropped_unwoken, after) = r?;
     if !rep.misuses.is_empty() || (!threaded && !rep.leaked.is_empty()) {
@@ -428,14 +444,14 @@ fn wop() -> impl Strategy<Value = WOp> {
 pub fn strategy() -> impl Strategy<Value = Case> {
     let phase = (prop::collection::vec(wop(), 0..8), prop::collection::vec(wop(), 0..8), prop::bool::weighted(0.06))
         .prop_map(|(during, after, after_on_thread)| Phase { during, after, after_on_thread });
-    (0u8..3, prop::collection::vec(phase, 0..5), prop::collection::vec(any::<u16>(), 0..8), prop::bool::weighted(0.04))
-        .prop_map(|(via, phases, final_drop_order, final_on_thread)| Case { via, phases, final_drop_order, final_on_thread })
+    (0u8..3, prop::collection::vec(phase, 0..5), prop::collection::vec(any::<u16>(), 0..8), prop::bool::weighted(0.04), prop::bool::weighted(0.06))
+        .prop_map(|(via, phases, final_drop_order, final_on_thread, final_unwinding)| Case { via, phases, final_drop_order, final_on_thread, final_unwinding })
 }
 
 pub fn run(ctx: &Ctx) -> i32 {
     ctx.run("waker-histories", ctx.n(20_000, 400_000), strategy(), check);
     ctx.finish(
-        "histories over {clone, wake, wake_by_ref, drop} on the tree of wakers obtained inside polls of an opaque Future / Stream / Sink object (cglue ext traits), split into ops during each poll, ops on retained wakers after the poll returned (optionally on another thread) and a generated final drop order; the caller's waker is a hand-rolled RawWakerVTable over counters. Oracle after every op: wakes seen by the original == wakes issued; releases <= clones; clones - releases >= 1 while a foreign waker is alive; at the end clones == releases and nothing touches the original afterwards. Non-trivial = >= 2 foreign wakers created, or one dropped without waking, or one used after the poll",
+        "histories over {clone, wake, wake_by_ref, drop} on the tree of wakers obtained inside polls of an opaque Future / Stream / Sink object (cglue ext traits), split into ops during each poll, ops on retained wakers after the poll returned (optionally on another thread) and a generated final drop order (sometimes inside a thread that is unwinding from a panic); the caller's waker is a hand-rolled RawWakerVTable over counters. Oracle after every op: wakes seen by the original == wakes issued; releases <= clones; clones - releases >= 1 while a foreign waker is alive; at the end clones == releases and nothing touches the original afterwards. Non-trivial = >= 2 foreign wakers created, or one dropped without waking, or one used after the poll",
         &["thread interleavings are not owned by the harness; threaded phases are checked at quiescence only"],
         false,
     )
